@@ -14,6 +14,7 @@ from harness import keys as K
 from harness import jwscases as J
 from harness import jwecases as E
 from harness import jwsref
+from harness import refprims
 
 RULE = ("generated claim trees (unicode incl. non-BMP, nested arrays/objects, ints up to 2^70, floats, empty containers; datetime "
         "exp/nbf/iat with and without tzinfo, non-UTC offsets, microseconds) x headers (typ default/explicit, extra members) x JWS "
@@ -79,6 +80,7 @@ def run(ctx):
     rng = ctx.rng
     n = 120 if ctx.tier == "quick" else 1500
     dec_lines, dec_meta = [], []
+    enc_lines, enc_res, enc_meta = [], [], []
     for i in range(n):
         transport = rng.choice(["jws", "jws", "jwe"])
         claims = rand_claims(rng)
@@ -106,8 +108,13 @@ def run(ctx):
             skarg, pkarg = sk, pk
         hdr_snapshot = copy.deepcopy(header)
         claims_in = copy.deepcopy(claims)
+        tape = E.Tape() if transport == "jwe" else None
         try:
-            tok = jwt.encode(header, claims_in, skarg, **kw)
+            if tape is not None:
+                with tape:
+                    tok = jwt.encode(header, claims_in, skarg, **kw)
+            else:
+                tok = jwt.encode(header, claims_in, skarg, **kw)
             out = "ok"
         except Exception as e:  # noqa: BLE001
             out, tok = err_name(e), None
@@ -134,6 +141,19 @@ def run(ctx):
             ctx.report("decoded claims differ (as JSON) from the encoded ones", {"encoded": repr(claims)[:400], "decoded": repr(got[1])[:400]}, f"roundtrip:{transport}:claims")
         if g_header != want_header:
             ctx.report("decoded header differs from the given one plus typ", {"given": hdr_snapshot, "decoded": got[2]}, f"roundtrip:{transport}:header")
+        # the model encodes the same request (JWE: with the randomness of the implementation's run on a tape)
+        if form == "key":
+            try:
+                wc = expected_claims(claims)
+                if transport == "jws":
+                    enc_lines.append(f"jwt.enc-jws {opt_str_list(J.ALL_ALGS)} {J.enc_keyarg(sk)} {enc_jval(hdr_snapshot)} {enc_jval(wc)}")
+                    enc_res.append(None)
+                else:
+                    enc_lines.append(f"jwt.enc-jwe {opt_str_list(E.ALL_NAMES)} {J.enc_keyarg(pk if K._SPECS[kn][0] != 'oct' else sk)} {enc_jval(hdr_snapshot)} {enc_jval(wc)}")
+                    enc_res.append(tape.resolver())
+                enc_meta.append((transport, alg, tok, pk, kw, want_claims, want_header))
+            except wire.Unencodable:
+                pass
         # model decodes the same token
         if form == "key":
             try:
@@ -145,6 +165,7 @@ def run(ctx):
                 dec_meta.append((tok, pk, kw))
             except wire.Unencodable:
                 pass
+    model_encodes(ctx, enc_lines, enc_res, enc_meta)
     not_object(ctx, dec_lines, dec_meta)
     answers = model_eval(dec_lines) if ctx.driver_ok else []
     for ln, (tok, pk, kw), m in zip(dec_lines, dec_meta, answers):
@@ -162,6 +183,44 @@ def run(ctx):
         if mo != impl and not _nan_eq(mo, impl):
             ctx.disagreements.append({"suite": "jwt-decode", "request": ln[:200], "model": repr(mo)[:300], "impl": repr(impl)[:300]})
     numeric_date(ctx)
+
+
+DETERMINISTIC = ("HS256", "HS384", "HS512", "RS256", "RS384", "RS512", "EdDSA")
+
+
+def model_encodes(ctx, lines, resolvers, metas):
+    """jwtEncodeJws / jwtEncodeJwe (the subjects of the C09 round-trip theorems) against jwt.encode: byte-identical
+    token where the signature is deterministic or the randomness is on a tape; otherwise the model's token must decode
+    in joserfc to the same claims and header."""
+    from joserfc import jwt
+    if not ctx.driver_ok or not lines:
+        return
+    answers = model_eval(lines, resolvers=[r or refprims.answer for r in resolvers])
+    for ln, (transport, alg, tok, pk, kw, want_claims, want_header), m in zip(lines, metas, answers):
+        ctx.count("model-encode", ln[-160:], True, f"{transport}:{alg}:{m.split(' ')[0] if not m.startswith('err') else m[4:]}")
+        if not m.startswith("ok "):
+            ctx.disagreements.append({"suite": "jwt-encode", "request": ln[:300], "model": m, "impl": "ok (jwt.encode produced a token)"})
+            continue
+        mtok = wire.unhx(m[3:].split(" ")[0]).decode()
+        if (transport == "jwe" and not alg.startswith("RSA")) or alg in DETERMINISTIC:
+            if mtok != tok:
+                ctx.disagreements.append({"suite": "jwt-encode", "request": ln[:300], "model": mtok[:300], "impl": tok[:300]})
+            continue
+        if transport == "jwe":
+            # RSA key encryption pads randomly inside the primitive: every segment but the encrypted key is identical,
+            # and the model's token must decode in joserfc (below)
+            a, b = mtok.split("."), tok.split(".")
+            if len(a) != 5 or a[:1] + a[2:] != b[:1] + b[2:]:
+                ctx.disagreements.append({"suite": "jwt-encode", "request": ln[:300], "model": mtok[:300], "impl": tok[:300]})
+                continue
+        try:
+            t = jwt.decode(mtok, pk, **kw)
+            ok = t.claims == want_claims and {k_: v for k_, v in t.header.items()} == want_header
+            why = "claims/header differ"
+        except Exception as e:  # noqa: BLE001
+            ok, why = False, err_name(e)
+        if not ok:
+            ctx.disagreements.append({"suite": "jwt-encode->impl-decodes", "request": ln[:300], "model": mtok[:300], "impl": why})
 
 
 def _nan_eq(a, b):
